@@ -1,7 +1,7 @@
 (* Proof machinery shared by the generated obligations of C02 / C23. *)
 From Coq Require Import Reals List Lra Lia.
 From VLib Require Import RealExtra.
-Require Import TensorIndex.
+Require Import TensorIndex NsatzTac.
 Local Open Scope R_scope.
 
 (* ---- proof machinery shared by the generated obligations *)
@@ -9,15 +9,13 @@ Lemma list_eq_nth (l1 l2 : list R) :
   @length R l1 = @length R l2 -> (forall k : nat, Nat.lt k (@length R l1) -> @nth R k l1 0 = @nth R k l2 0) -> l1 = l2.
 Proof. intros H1 H2. apply (nth_ext l1 l2 0 0 H1 H2). Qed.
 
-From Coq Require Import Nsatz.
-
 (* reduce specification terms (index computations, sums, storage maps) but leave real arithmetic alone *)
 Ltac spec_red := lazy -[Rplus Rmult Rminus Ropp Rdiv Rinv IZR sqrt].
-Ltac spec_red_in H := lazy -[Rplus Rmult Rminus Ropp Rdiv Rinv IZR sqrt] in H.
+Ltac spec_red_in H := lazy -[Rplus Rmult Rminus Ropp Rdiv Rinv IZR sqrt not] in H.
 Ltac nonzero :=
   repeat split;
   first [ apply sqrt2_neq0 | apply sqrt3_neq0 | assumption | lra
-        | match goal with H : _ <> 0 |- _ <> 0 => let E := fresh in intro E; apply H; timeout 100 nsatz end ].
+        | match goal with H : _ <> 0 |- _ <> 0 => let E := fresh in intro E; apply H; timeout 100 nsatz_tac end ].
 (* the single closing tactic: identities of rational functions over Q[sqrt 2, sqrt 3], whatever their shape *)
 Ltac comp_eq :=
   first [ reflexivity
